@@ -48,7 +48,7 @@ def run(tier):
                     if fn.startswith(tag + "_shard"):
                         os.remove(os.path.join(c.wd, fn))
     # T: random texts far outside the model bounds
-    cases, texts = (500, 4) if tier == "quick" else (2000, 5)
+    cases, texts = (500, 4) if tier == "quick" else (6000, 5)
     tr2 = os.path.join(c.wd, "random.ndjson")
     c.drive(exe, ["--random", "--seed", SEED, "--cases", cases, "--texts", texts], tr2, "T", timeout=900)
     c.validate(spec, "TraceTextBlock", "TraceTextBlock.cfg", tr2, "T", timeout=1500)
